@@ -84,7 +84,7 @@ CHECKS = {
          "DESIGN.md section 7, C15"),
  "C16": ("exploration",
          "exhaustive enumeration of all sequences of error-free statements in every block context; differential comparison of the concatenation's statement list with the parts' own parses",
-         "A pool of ~115 statement texts (every leaf template, compounds with block and single-statement bodies, anonymous blocks, statements starting with every kind of expression-start token, empty statement, pragma/annotation lines, definitions); those that parse cleanly alone (decided by the implementation) are concatenated in all sequences of length <= 3 in each of 9 contexts (file, if, else, while, for, case, default, gate, def; thorough: length 4 at top level and in if), and N copies of each followed by each of 6 victim statements for N around every power of two up to 1024 (thorough 4096) in three contexts; the concatenation must have no diagnostic and its statement list must equal the concatenation of the parts' lists by kind, token texts and preorder kind sequence.",
+         "A pool of ~115 statement texts (every leaf template, compounds with block and single-statement bodies, anonymous blocks, statements starting with every kind of expression-start token, empty statement, pragma/annotation lines, definitions); those that parse cleanly alone (decided by the implementation) are concatenated in all sequences of length <= 3 in each of 9 contexts (file, if, else, while, for, case, default, gate, def; thorough: length 4 at top level), length-2 sequences joined by four comment flavours in four contexts, and N copies of each followed by each of 6 victim statements for N around every power of two up to 1024 (thorough 4096) in three contexts; the concatenation must have no diagnostic and its statement list must equal the concatenation of the parts' lists by kind, token texts and preorder kind sequence.",
          "Differential oracle, no expected value written by hand. One defect (assignment swallowing the next statement) was repaired by a fix: commit; four are recorded (empty statement after an item; `let` in blocks; anonymous block ending a block; semicolon absorbed by a block statement).",
          "DESIGN.md section 7, C16"),
  "C17": ("exploration",
@@ -99,7 +99,7 @@ CHECKS = {
          "DESIGN.md section 7, C18"),
  "C19": ("model_checking",
          "explicit-state exploration of all operation histories on the real SymbolTable, lock-step comparison with a reference stack of maps",
-         "All histories of length <= 7 (thorough: <= 9, 4.8e8) over the nine operations of the statement, plus a second alphabet (lookup-or-bind, gate and hardware-qubit bindings) and all short histories from 11 systematic non-initial states, are executed on the real SymbolTable (cloned at branch points); after every operation the result and the full observation vector (look-ups, scope size, depth, every id ever issued, gate and hardware-qubit listings) are compared with the reference model. Reports reference states, transitions and traces executed; every trace runs on the implementation.",
+         "All histories of length <= 7 (thorough: <= 9, 4.8e8) over the nine operations of the statement, plus a second alphabet (lookup-or-bind, gate and hardware-qubit bindings) and all short histories from 14 systematic non-initial states (deep stacks, large global and large non-global scopes, scopes that were filled and exited), are executed on the real SymbolTable (cloned at branch points); after every operation the result and the full observation vector (look-ups, scope size, depth, every id ever issued, gate and hardware-qubit listings) are compared with the reference model. Reports reference states, transitions and traces executed; every trace runs on the implementation.",
          "Hook oq3_verif gives access to enter_scope and the scope depth. Histories beyond the bound are covered only as suffixes of deep/large start states.",
          "DESIGN.md section 7, C19"),
  "C20": ("exploration",
